@@ -23,6 +23,6 @@ Requirements for the change:
  * It must make the property above false for some input/design/history (not merely change cosmetics such as invented names when the property does not fix them).
 Deliverables, all written into {wt}/SEED/ :
  1. patch.diff  - output of `git diff` for your change (only library source files; not the SEED directory)
- 2. demo.py     - a small standalone program that exits 0 on the unchanged tree and exits non-zero (assertion failure) with your change applied, demonstrating the property violation through the library's public API. Run it with the PYTHONPATH line above in both states and confirm both outcomes yourself (use `git stash` / `git stash pop` or `git apply -R`).
+ 2. demo.py     - a small standalone program that exits 0 on the unchanged tree and exits non-zero (assertion failure) with your change applied, demonstrating the property violation through the library's public API. Run it with the PYTHONPATH line above in both states and confirm both outcomes yourself (use `git diff > /tmp/my.patch; git apply -R /tmp/my.patch; ...; git apply /tmp/my.patch` - do NOT use `git stash`: the stash is shared by all worktrees of the repository and other agents are working in sibling worktrees).
  3. notes.md    - 5-10 lines: what the change is, what it needs in order to manifest, which inputs expose it, and the exact commands you ran with their outcomes (tests passed count; demo result with/without).
 Leave the worktree with the change APPLIED. Finish with a short report (what you changed and the demo outcome).""")
